@@ -652,7 +652,11 @@ func (c *VCtx) applyContract(fr *Frame, st *State, cc *ssa.CallCommon, ct *FuncC
 						if !isMap || !strings.Contains(" "+strings.Join(m.spec.Guarded, " ")+" ", " "+f.Name()+" ") {
 							continue
 						}
-						c.eng.assume("the map in " + m.spec.Type + "." + f.Name() + " (and the backing arrays of the lists stored in it) is reachable only through that guarded field")
+						if key := "mapprivate:" + m.spec.Type + "." + f.Name(); !c.declSet[key] {
+							c.declSet[key] = true
+							okp, why := c.mapFieldPrivate(m.objT, f.Name())
+							c.staticObl("own.mapprivate."+m.spec.Type+"."+f.Name(), "the map in "+m.spec.Type+"."+f.Name()+" and the backing arrays of the lists stored in it are reachable only through that guarded field (syntactic escape check over the package)", okp, why)
+						}
 						fh := fieldHeapName(m.objT, f.Name())
 						mref := c.name("keepmap", Select(c.heap(st, fh, c.heapSorts[fh]), m.obj))
 						dn, vn, cn := mapHeapNames(mt)
@@ -1851,6 +1855,14 @@ func (c *VCtx) pkgTouchesMaps(path string) bool {
 					}
 				}
 			}
+			// methods of generic types have no MethodValue: take their generic bodies
+			if n, ok := x.Type().(*types.Named); ok {
+				for i := 0; i < n.NumMethods(); i++ {
+					if f := c.eng.Prog.FuncValue(n.Method(i)); f != nil {
+						scan(f)
+					}
+				}
+			}
 		}
 	}
 	mapTouchCache[path] = res
@@ -1914,4 +1926,231 @@ func (c *VCtx) mayAssignGhost(callee *ssa.Function, name string) bool {
 	ghostAssignCache[key] = res
 	ghostAssignMu.Unlock()
 	return res
+}
+
+// mapFieldPrivate decides syntactically (over the SSA of the whole package) that the map stored in field `field`
+// of struct type structT, and the backing arrays of the slices stored in that map, are reachable only through
+// the field: the field is only ever assigned a map made on the spot; the loaded map value is used only for
+// lookup, update, delete, range and len; a slice taken from the map (by lookup or range) flows only through
+// reslicing, append (as destination), phi, len/cap, element access, comparison with nil and back into the same
+// map. The elements themselves may escape. Anything else is reported.
+func (c *VCtx) mapFieldPrivate(structT types.Type, field string) (bool, string) {
+	st := deref0(structT)
+	named, ok := st.(*types.Named)
+	if !ok || named.Obj().Pkg() == nil {
+		return false, "not a named struct type"
+	}
+	named = named.Origin()
+	sp := c.eng.SPkgs[named.Obj().Pkg().Path()]
+	if sp == nil {
+		return false, "package not loaded"
+	}
+	isField := func(x types.Type, idx int) bool {
+		n, ok := deref0(x).(*types.Named)
+		if !ok || n.Origin() != named {
+			return false
+		}
+		stt, ok := n.Underlying().(*types.Struct)
+		return ok && idx < stt.NumFields() && stt.Field(idx).Name() == field
+	}
+	var bad []string
+	report := func(fn *ssa.Function, in ssa.Instruction, what string) {
+		bad = append(bad, fmt.Sprintf("%s: %s (%s)", fn.Name(), what, c.eng.pos(in.Pos())))
+	}
+	mapVals := map[ssa.Value]bool{}
+	sliceVals := map[ssa.Value]bool{}
+	var work []ssa.Value
+	addMap := func(v ssa.Value) {
+		if !mapVals[v] {
+			mapVals[v] = true
+			work = append(work, v)
+		}
+	}
+	addSlice := func(v ssa.Value) {
+		if !sliceVals[v] {
+			sliceVals[v] = true
+			work = append(work, v)
+		}
+	}
+	isNil := func(v ssa.Value) bool {
+		k, ok := v.(*ssa.Const)
+		return ok && k.Value == nil
+	}
+	var scan func(fn *ssa.Function)
+	seenFn := map[*ssa.Function]bool{}
+	scan = func(fn *ssa.Function) {
+		if fn == nil || seenFn[fn] {
+			return
+		}
+		seenFn[fn] = true
+		for _, b := range fn.Blocks {
+			for _, in := range b.Instrs {
+				switch x := in.(type) {
+				case *ssa.Field:
+					if isField(x.X.Type(), x.Field) {
+						report(fn, in, "the struct is copied by value")
+					}
+				case *ssa.FieldAddr:
+					if !isField(x.X.Type(), x.Field) {
+						continue
+					}
+					for _, r := range *x.Referrers() {
+						switch y := r.(type) {
+						case *ssa.UnOp:
+							addMap(y)
+						case *ssa.Store:
+							if y.Addr != ssa.Value(x) {
+								report(fn, r, "the address of the field is stored")
+							} else if _, isMake := y.Val.(*ssa.MakeMap); !isMake {
+								report(fn, r, "the field is assigned something other than a map made on the spot")
+							} else if n := func() int {
+								n := 0
+								for _, u := range *y.Val.Referrers() {
+									if _, dbg := u.(*ssa.DebugRef); !dbg {
+										n++
+									}
+								}
+								return n
+							}(); n != 1 {
+								report(fn, r, "the new map is used elsewhere too")
+							}
+						case *ssa.DebugRef:
+						default:
+							report(fn, r, "the address of the field escapes")
+						}
+					}
+				}
+			}
+		}
+		for _, an := range fn.AnonFuncs {
+			scan(an)
+		}
+	}
+	for _, m := range sp.Members {
+		switch x := m.(type) {
+		case *ssa.Function:
+			scan(x)
+		case *ssa.Type:
+			for _, t := range []types.Type{x.Type(), types.NewPointer(x.Type())} {
+				ms := c.eng.Prog.MethodSets.MethodSet(t)
+				for i := 0; i < ms.Len(); i++ {
+					scan(c.eng.Prog.MethodValue(ms.At(i)))
+				}
+			}
+			if n, ok := x.Type().(*types.Named); ok {
+				for i := 0; i < n.NumMethods(); i++ {
+					scan(c.eng.Prog.FuncValue(n.Method(i)))
+				}
+			}
+		}
+	}
+	if len(seenFn) == 0 {
+		return false, "no function bodies found"
+	}
+	var post []func()
+	for len(work) > 0 {
+		v := work[len(work)-1]
+		work = work[:len(work)-1]
+		fn := v.Parent()
+		for _, r := range *v.Referrers() {
+			if _, dbg := r.(*ssa.DebugRef); dbg {
+				continue
+			}
+			if mapVals[v] {
+				switch y := r.(type) {
+				case *ssa.Lookup:
+					if y.X != v {
+						report(fn, r, "the map is used as a key")
+					} else if y.CommaOk {
+						for _, e := range *y.Referrers() {
+							if ex, ok := e.(*ssa.Extract); ok && ex.Index == 0 {
+								addSlice(ex)
+							}
+						}
+					} else {
+						addSlice(y)
+					}
+				case *ssa.MapUpdate:
+					if y.Map != v {
+						report(fn, r, "the map is stored into another map")
+					} else if !sliceVals[y.Value] && !isNil(y.Value) {
+						// the value must come from the map's own lists; checked again after the fixpoint
+						yy, ff := y, fn
+						post = append(post, func() {
+							if !sliceVals[yy.Value] && !isNil(yy.Value) {
+								report(ff, yy, "a slice from elsewhere is stored into the map")
+							}
+						})
+					}
+				case *ssa.Range:
+					for _, nx := range *y.Referrers() {
+						if n, ok := nx.(*ssa.Next); ok {
+							for _, e := range *n.Referrers() {
+								if ex, ok := e.(*ssa.Extract); ok && ex.Index == 2 {
+									addSlice(ex)
+								}
+							}
+						}
+					}
+				case *ssa.Call:
+					if bi, ok := y.Call.Value.(*ssa.Builtin); !ok || (bi.Name() != "len" && bi.Name() != "delete") {
+						report(fn, r, "the map is passed to a call")
+					}
+				default:
+					report(fn, r, fmt.Sprintf("the map value is used by %T", r))
+				}
+				continue
+			}
+			// a slice taken from the map
+			switch y := r.(type) {
+			case *ssa.IndexAddr:
+				for _, e := range *y.Referrers() {
+					switch z := e.(type) {
+					case *ssa.UnOp, *ssa.DebugRef:
+					case *ssa.Store:
+						if z.Addr != ssa.Value(y) {
+							report(fn, e, "the address of a list element is stored")
+						}
+					default:
+						report(fn, e, "the address of a list element escapes")
+					}
+				}
+			case *ssa.Slice:
+				addSlice(y)
+			case *ssa.Phi:
+				addSlice(y)
+				yy, ff := y, fn
+				post = append(post, func() {
+					for _, e := range yy.Edges {
+						if !sliceVals[e] && !isNil(e) {
+							report(ff, yy, "a list variable is merged with a slice from elsewhere")
+						}
+					}
+				})
+			case *ssa.MapUpdate:
+				if y.Value != v || !mapVals[y.Map] {
+					report(fn, r, "a list is stored into another map or used as a key")
+				}
+			case *ssa.Range, *ssa.BinOp:
+			case *ssa.Call:
+				bi, ok := y.Call.Value.(*ssa.Builtin)
+				switch {
+				case ok && (bi.Name() == "len" || bi.Name() == "cap"):
+				case ok && bi.Name() == "append" && y.Call.Args[0] == v:
+					addSlice(y)
+				default:
+					report(fn, r, "a list is passed to a call")
+				}
+			default:
+				report(fn, r, fmt.Sprintf("a list taken from the map is used by %T", r))
+			}
+		}
+	}
+	for _, f := range post {
+		f()
+	}
+	if len(mapVals) == 0 {
+		return false, "the field is never read"
+	}
+	return len(bad) == 0, strings.Join(bad, "; ")
 }
